@@ -173,6 +173,7 @@ def main(argv=None):
     new_lines = []
     known_lines = []
     seen_kinds = set()
+    known_keys_printed = set()
     os.makedirs(os.path.join(core.ROOT, "replays"), exist_ok=True)
     n_known = 0
     n_new = 0
@@ -188,9 +189,12 @@ def main(argv=None):
         seen_kinds.add(tag)
         if v["key"] is not None and (prop, v["key"]) in known:
             k = known[(prop, v["key"])]
+            if v["key"] in known_keys_printed:
+                continue
+            known_keys_printed.add(v["key"])
             known_lines.append(
                 f"KNOWN-FINDING: property={prop} {v['key']}: {k.get('what', '')} "
-                f"[{viol_kinds[tag]} occurrence(s) this run; e.g. {v['detail'][:160]}]"
+                f"[{sum(n for (kd, ky), n in viol_kinds.items() if ky == v['key'])} occurrence(s) this run; e.g. {v['detail'][:160]}]"
             )
             continue
         h = hashlib.sha1(json.dumps(v["case"], sort_keys=True).encode()).hexdigest()[:12]
